@@ -26,6 +26,7 @@ type c08sCfg struct {
 	holder  bool  // a thread doing policyMu.Lock; yield; Unlock
 	writer  bool  // a client doing Set(other key) -> maintenance takes policyMu
 	loading bool  // hits go through LoadingStore.Get
+	hybrid  bool  // a secondary tier is attached and the hits go through the hybrid lookup (Store.GetWithSecodary)
 	recover bool  // a thread running LoadCache (Store.Recover) of a stream saved by this store while it was empty: it holds policyMu
 }
 
@@ -54,6 +55,10 @@ func c08sBody(cfg c08sCfg) (*c08sRun, func()) {
 				_, err := r.h.ls.Get(nil, key)
 				return err == nil
 			}
+			if cfg.hybrid {
+				_, ok, err := r.h.s.GetWithSecodary(key)
+				return ok && err == nil
+			}
 			_, ok := r.h.s.Get(key)
 			return ok
 		}
@@ -61,6 +66,9 @@ func c08sBody(cfg c08sCfg) (*c08sRun, func()) {
 			o := hOpts{MaxSize: 10, Stripes: 1, ChanSize: 4, BufSize: 1}
 			if cfg.loading {
 				o.Loader = func(k int) (Loaded[int], error) { r.loads++; return Loaded[int]{Value: k, Cost: 1}, nil }
+			}
+			if cfg.hybrid {
+				o.Secondary, o.Workers, o.Prob = newHySec("", false, func() int { return 0 }), 1, 1
 			}
 			r.h = newHStore(o)
 			same, _ := sameShardKeys(r.h.s, 2)
@@ -159,6 +167,8 @@ func c08sCfgs() []c08sCfg {
 		{name: "S5-loading-2x2-holder", gets: []int{2, 2}, holder: true, loading: true},
 		{name: "S6-2x3-writer", gets: []int{3, 3}, writer: true},
 		{name: "S7-2x2-loadcache", gets: []int{2, 2}, recover: true},
+		{name: "S8-hybrid-2x2-holder", gets: []int{2, 2}, holder: true, hybrid: true},
+		{name: "S8L-hybrid-loading-2x2-holder", gets: []int{2, 2}, holder: true, hybrid: true, loading: true},
 	}
 }
 
